@@ -20,6 +20,6 @@ The breakage should need something specific to manifest - an unusual input, a pa
 
 Deliver, inside /tmp/mut/{pid}:
   1. the change itself, left UNCOMMITTED in the worktree (only files under src/), and also saved as /tmp/mut/{pid}/patch.diff (`git diff > patch.diff`, made before adding the demo);
-  2. a demonstration: a new integration test file tests/mut_demo.rs (using only the crate's public API) with one test that FAILS with your change and PASSES on the original code.  Verify both: run it with the change (must fail), then `git stash` the src change (keep the test), run it again (must pass), then `git stash pop`.
+  2. a demonstration: a new integration test file tests/mut_demo.rs (using only the crate's public API) with one test that FAILS with your change and PASSES on the original code.  Verify both: run it with the change (must fail), then take the src change out with `git apply -R patch.diff` (NEVER use `git stash`: the stash is shared between worktrees and other people are working in sibling worktrees), run it again (must pass), then put it back with `git apply patch.diff` and check `git diff -- src | diff - patch.diff` is empty.
   3. confirm `cargo test --offline --workspace` passes with the change when tests/mut_demo.rs is excluded (e.g. temporarily move it away).
 Reply with: a one-paragraph description of the change, what exactly is needed for it to manifest, and the exact commands you ran with their outcomes.""")
